@@ -319,6 +319,11 @@ def run_driver(case):
     n = 0
     code = 0
     a = b = None
+    if udp and not use_async:
+        try:
+            a, b = socket.socketpair(socket.AF_UNIX, socket.SOCK_DGRAM)
+        except OSError:
+            use_async = True      # no local datagram sockets here: use the asyncio driver with its fake socket
     if use_async:
         c, n = run_driver_async(z, q, ser, udp, wires)
         if c.code >= 800:
@@ -326,7 +331,6 @@ def run_driver(case):
         return [c.code, n, dump_checked(z, rel)]
     try:
         if udp:
-            a, b = socket.socketpair(socket.AF_UNIX, socket.SOCK_DGRAM)
             a.setblocking(False)
             for w in wires:
                 b.send(w)
@@ -504,12 +508,21 @@ class MiniServer:
 _server = None
 
 
+def get_server():
+    """the loopback server, or None when the environment does not allow local sockets"""
+    global _server
+    if _server is None:
+        try:
+            _server = MiniServer()
+        except OSError:
+            _server = False
+    return _server or None
+
+
 def run_top(case):
     """dns.query.inbound_xfr over real loopback sockets (default query from the zone, UDP modes)"""
-    global _server
     _, zk, rel, mode, z0, tu, tt = case[:7]
-    if _server is None:
-        _server = MiniServer()
+    _server = get_server()
     _server.script = {"udp": tu, "tcp": tt}
     _server.seen = []
     z = build_zone(zk % 3, rel, z0)
@@ -527,10 +540,8 @@ def run_top(case):
 
 def run_legacy(case):
     """the older API: dns.zone.from_xfr(dns.query.xfr(...)) against the loopback server (AXFR)"""
-    global _server
     _, rel, msgs = case[:3]
-    if _server is None:
-        _server = MiniServer()
+    _server = get_server()
     _server.script = {"udp": [], "tcp": [[None, msgs]]}
     try:
         gen = dns.query.xfr("127.0.0.1", ORIGIN, port=_server.port, relativize=bool(rel), timeout=5, lifetime=5)
@@ -1405,8 +1416,11 @@ def cases(ctx):
     yield from malformed_cases(ctx, rng, ctx.n(300, 4500))
     yield from feed_cases(ctx, rng, ctx.n(200, 2000))
     yield from refresh_cases(ctx, rng, ctx.n(200, 2500))
-    yield from top_cases(ctx, rng, ctx.n(120, 800))
-    yield from legacy_cases(ctx, rng, ctx.n(60, 500))
+    if get_server() is not None:
+        yield from top_cases(ctx, rng, ctx.n(120, 800))
+        yield from legacy_cases(ctx, rng, ctx.n(60, 500))
+    else:
+        ctx.notes["loopback"] = "no local sockets: dns.query.inbound_xfr / dns.query.xfr socket-level cases skipped"
 
 
 # ------------------------------------------------------------------ oracle
